@@ -1,6 +1,9 @@
 #include "dyn.h"
 
+#include <sys/ioctl.h>
 #include <sys/stat.h>
+
+#include <thread>
 
 #include <atomic>
 #include <cstdio>
@@ -46,6 +49,52 @@ int MakeReadFd(const uint8_t* data, size_t n) {
   return fd;
 }
 
+struct BurstFeeder::Impl {
+  std::vector<uint8_t> data;
+  int wfd = -1, pollfd = -1;
+  unsigned seed = 1;
+  std::atomic<bool> stop{false};
+  std::thread th;
+  void Run() {
+    size_t off = 0;
+    unsigned x = seed * 2654435761u + 12345u;
+    while (off < data.size() && !stop.load()) {
+      x = x * 1103515245u + 12345u;
+      size_t chunk = 1 + (x >> 16) % 5;            // bursts of 1..5 bytes
+      if (chunk > data.size() - off) chunk = data.size() - off;
+      if (::write(wfd, data.data() + off, chunk) != static_cast<ssize_t>(chunk)) break;
+      off += chunk;
+      // wait until the reader has drained the pipe
+      while (!stop.load()) {
+        int avail = 0;
+        if (::ioctl(pollfd, FIONREAD, &avail) != 0 || avail == 0) break;
+        std::this_thread::yield();
+      }
+    }
+    ::close(wfd);
+    wfd = -1;
+  }
+};
+
+BurstFeeder::BurstFeeder(const uint8_t* data, size_t n, unsigned seed) : impl_(new Impl), rfd_(-1) {
+  int fds[2];
+  if (pipe(fds) != 0) return;
+  rfd_ = fds[0];
+  impl_->wfd = fds[1];
+  impl_->pollfd = ::dup(fds[0]);
+  impl_->data.assign(data, data + n);
+  impl_->seed = seed;
+  impl_->th = std::thread([this]() { impl_->Run(); });
+}
+
+BurstFeeder::~BurstFeeder() {
+  impl_->stop.store(true);
+  if (impl_->th.joinable()) impl_->th.join();
+  if (impl_->wfd >= 0) ::close(impl_->wfd);
+  if (impl_->pollfd >= 0) ::close(impl_->pollfd);
+  delete impl_;
+}
+
 DynReader::DynReader(const ReaderSpec& spec, const uint8_t* data, size_t n) {
   srclen_ = n;
 #if defined(VF_SAN)
@@ -80,6 +129,11 @@ DynReader::DynReader(const ReaderSpec& spec, const uint8_t* data, size_t n) {
     }
     if (spec.bounded) impl_.reset(new RBounded<FS>(lim, tmpfile_, std::ios::in | std::ios::binary));
     else impl_.reset(new RDirect<FS>(tmpfile_, std::ios::in | std::ios::binary));
+  } else if (k == "fdburst") {
+    feeder_.reset(new BurstFeeder(heap_, n, static_cast<unsigned>(n * 31 + 7)));
+    int fd = feeder_->read_fd();
+    if (spec.bounded) impl_.reset(new RBounded<nop::FdReader, false>(lim, fd));
+    else impl_.reset(new RFd(fd));
   } else if (k == "fd") {
     int fd = MakeReadFd(heap_, n);
     if (spec.bounded) impl_.reset(new RBounded<nop::FdReader, false>(lim, fd));
@@ -92,6 +146,7 @@ DynReader::DynReader(const ReaderSpec& spec, const uint8_t* data, size_t n) {
 
 DynReader::~DynReader() {
   impl_.reset();
+  feeder_.reset();
   delete[] heap_;
   if (!tmpfile_.empty()) ::unlink(tmpfile_.c_str());
 }
